@@ -56,6 +56,14 @@ SCRIPTS = [
     "delimiter $$\nselect a from t where b is null $$\ndelimiter ;\nselect coalesce(null, null, 1); select null",
     "select null;\nselect f(null);\n",
     "delimiter |\ninsert into t (a, b) values (null, 1), (2, null) |\nupdate t set a = null |\nselect 1 |\n",
+    # statements that simplify to nothing next to statements that do not (an empty block is a legal no-op),
+    # routines and blocks among ordinary statements of a `;`-separated script
+    "begin end", "select 1; begin end; select 2", "select 1; begin end", "begin select 1; begin end; end",
+    "if a then select 1; begin end; end if", "begin begin end; end", "begin end; begin end; select f(null)",
+    "select 0; create procedure p() select 1; select 2", "create procedure p() select 1; create procedure q() select 2",
+    "create function f(a int) returns int return a + 1; select f(null)", "select null; create procedure p() begin select 1; select null; end; select 3",
+    "delimiter $$\ncreate procedure p() begin select 1; end $$\ndelimiter ;\nselect 2; create procedure q() select 3; select 4",
+    "begin select 1; end; select 2; begin select null; select 3; end",
 ]
 
 
